@@ -9,6 +9,8 @@ confidence 0, flag 4 == transformed flag 1).
 import math
 import itertools
 
+import numpy as np
+
 from hypothesis import strategies as st
 
 from vlib import gen
@@ -147,8 +149,22 @@ def by_name(info):
 
 
 class Env(object):
-    def __init__(self, sc, fitter, k, grids):
+    def __init__(self, sc, fitter, k, grids, directory=None, dr=None, resolved_fitter=None):
         self.sc, self.fitter, self.k, self.grids = sc, fitter, k, grids
+        self.directory, self.dr = directory, dr
+        self.resolved_fitter = resolved_fitter   # same package, remove_resolved=True (per-file packages only)
+        self.reduced = {}
+
+    def reduced_fitter(self, keep, remove_resolved):
+        """a fitter that does not know the bands that are not in `keep` at all"""
+        key = (tuple(keep), remove_resolved)
+        if key not in self.reduced:
+            sub = dict(self.sc)
+            sub['filters'] = [self.sc['filters'][j] for j in keep]
+            sub['theta'] = [self.sc['theta'][j] for j in keep]
+            with must_succeed('Fitter() on a subset of the filters'), quiet():
+                self.reduced[key] = make_fitter_rr(self.directory, sub, self.sc['av_range'], self.dr, remove_resolved)
+        return self.reduced[key]
 
     def fit(self, src, what):
         so = gen.source_object(src)
@@ -212,6 +228,20 @@ class Env(object):
                 fail('%s: (av, sc) of model %s differs: (%r, %r) vs (%r, %r)' % (what, name, av1, sc1, av2, sc2), sig)
 
 
+def make_fitter_rr(directory, sc, av_range, dr, remove_resolved):
+    import numpy as np
+    from astropy import units as u
+    from sedfitter import Fitter
+    law = gen.law_object(sc['law'])
+    if sc['format'] == 'v2wav':
+        fnames = [f['wav'] * u.micron for f in sc['filters']]
+    else:
+        fnames = [f['name'] for f in sc['filters']]
+    return Fitter(fnames, np.array(sc['theta']) * u.arcsec, directory, extinction_law=law, av_range=list(av_range),
+                  distance_range=dr if dr is not None else [1., 2.] * u.kpc, remove_resolved=remove_resolved,
+                  use_memmap=False)
+
+
 def run_case(case, ctx):
     from astropy import units as u
     sc = case['scenario']
@@ -226,6 +256,8 @@ def run_case(case, ctx):
             with must_succeed('Fitter()'), quiet():
                 fitter = gen.make_fitter(d, sc, sc['av_range'])
             grids = None
+            dr = None
+            rfit = None
         else:
             gen.build_package_3d(d, sc)
             dr = gen.distance_range_quantity(sc['setup'])
@@ -233,7 +265,11 @@ def run_case(case, ctx):
             grids = of.distance_grid(dk[0], dk[1], sc['setup']['step'])
             with must_succeed('Fitter()'), quiet():
                 fitter = gen.make_fitter(d, sc, sc['av_range'], distance_range=dr)
-        env = Env(sc, fitter, k, grids)
+            rfit = None
+            if sc['format'] == 'v1' and len(sc['grid']['apertures']) >= 2:
+                with must_succeed('Fitter(remove_resolved=True)'), quiet():
+                    rfit = make_fitter_rr(d, sc, sc['av_range'], dr, True)
+        env = Env(sc, fitter, k, grids, directory=d, dr=dr, resolved_fitter=rfit)
         for vec in vectors_of(case):
             nvec += 1
             try:
@@ -304,6 +340,28 @@ def check_vector(env, vec, labels):
         _, info4 = env.fit(src4, 'flag 1 -> transformed flag 4')
         env.same(info, info4, refs, 'flags %r: flag-1 points given as transformed flag-4 points' % (vec,), 'c03:flag4_not_equivalent')
         labels.add('rel_flag4')
+    # 6. a band flagged 0 is as if the band did not exist: a fitter built WITHOUT those bands gives the same fits
+    #    (also with remove_resolved=True, where the apertures of the used bands decide which models are dropped)
+    zeros = [j for j, f in enumerate(vec) if f == 0]
+    keep = [j for j, f in enumerate(vec) if f != 0]
+    if zeros and len(keep) >= 1 and env.directory is not None and (len(zeros) + sum(vec)) % 2 == 0:
+        sub_src = dict(base)
+        for key in ('flags', 'flux', 'err'):
+            sub_src[key] = [base[key][j] for j in keep]
+        for rr in ([False, True] if env.resolved_fitter is not None else [False]):
+            full = env.resolved_fitter if rr else env.fitter
+            with must_succeed('Fitter.fit'), quiet():
+                ia = full.fit(gen.source_object(base))
+                ib = env.reduced_fitter(keep, rr).fit(gen.source_object(sub_src))
+            if rr and not (np.all(np.isfinite(ia.chi2)) and np.all(np.isfinite(ib.chi2))):
+                # models resolved at every distance get chi2 = inf on both sides; compare the pattern only
+                if list(np.isfinite(ia.chi2[np.argsort(ia.model_name)])) != list(np.isfinite(ib.chi2[np.argsort(ib.model_name)])):
+                    fail('flags %r, remove_resolved=True: which models are rejected as resolved depends on a band flagged 0' % (vec,),
+                         'c03:flag0_band_matters')
+                continue
+            env.same(ia, ib, refs, 'flags %r%s: fitting without the bands flagged 0 at all' % (
+                vec, ', remove_resolved=True' if rr else ''), 'c03:flag0_band_matters')
+        labels.add('rel_band_absent')
     return bool(has & {0, 9, 2, 3, 4})
 
 
